@@ -325,6 +325,8 @@ def transformed(sc, i, scale=True):
         sc["scale"] = [1 << 40, 999999999989][i % 2]
     sc["tsoff"] = str([0, 1800000000000000, (1 << 64) - 100000][i % 3])     # ms now-ish in microseconds; the 64-bit limit
     sc["ulid"] = (i % 4 == 3)
+    # ids 4, 5, 6 carry the same 128 bits as ids 1, 2, 3 in the other id format (different ids, equal bytes)
+    sc["twins"] = (i % 4 == 1)
     return sc
 
 
